@@ -11,6 +11,8 @@ use serde_json::{json, Value};
 use std::collections::BTreeSet;
 
 pub const MAX_CELLS: usize = 300;
+/// results of the "large" cone class (cones of many cells at moderate depths): the whole cell list is still given to TLC
+pub const MAX_CELLS_LARGE: usize = 4000;
 
 fn e15(d: f64) -> i64 { if d.is_nan() { 2_000_000_000 } else { (d * 1e15).round().max(-2e9).min(2e9) as i64 } }
 
@@ -121,16 +123,26 @@ pub fn cone_event(rng: &mut Rng, depth: u8, dd: u8, lon: f64, lat: f64, r: f64, 
   let m = ev.as_object_mut().unwrap();
   match res {
     None => { m.insert("p".into(), json!(1)); m.insert("dmax".into(), json!(0)); m.insert("cells".into(), json!([])); m.insert("wit".into(), json!([]));
-              m.insert("full_excess".into(), json!(0)); m.insert("slack".into(), json!(0)); m.insert("rtol".into(), json!(0)); m.insert("pen".into(), json!(0)); }
+              m.insert("full_excess".into(), json!(0)); m.insert("slack".into(), json!(0)); m.insert("rtol".into(), json!(0)); m.insert("pen".into(), json!(0));
+              m.insert("full_rel".into(), json!(0)); m.insert("r3".into(), json!((r * 1000.0) as i64)); }
     Some(bm) => {
-      if bm.entries.len() > MAX_CELLS { return None; }
+      let large = class == "large";
+      if bm.entries.len() > (if large { MAX_CELLS_LARGE } else { MAX_CELLS }) { return None; }
       let cells = cells_of(&bm);
-      let wit = if r >= PI { vec![] } else { cone_witnesses(rng, depth, lon, lat, r, 120) };
+      let wit = if r >= PI { vec![] } else { cone_witnesses(rng, depth, lon, lat, r, if large { 40 } else { 120 }) };
       // full cells must lie entirely in the cone: worst excess over vertices and edge points
       let mut full_excess: f64 = -1.0;
-      for c in cells.iter().filter(|c| c.f).take(150) {
-        for (l, b) in cell_border_points(c, 7) { full_excess = full_excess.max(ang_dist(l, b, lon, lat) - r); }
+      // attribution only: the excess relative to the size of the offending cell, in 1/1000 of 1/nside
+      let mut full_rel: f64 = 0.0;
+      for c in cells.iter().filter(|c| c.f).take(if large { 100_000 } else { 150 }) {
+        for (l, b) in cell_border_points(c, if large { 3 } else { 7 }) {
+          let ex = ang_dist(l, b, lon, lat) - r;
+          full_excess = full_excess.max(ex);
+          full_rel = full_rel.max(ex * (1u64 << c.p.len()) as f64 * 1000.0);
+        }
       }
+      m.insert("full_rel".into(), json!(full_rel.min(1e9).round() as i64));
+      m.insert("r3".into(), json!((r * 1000.0) as i64));
       // tightness: centre within r + 2 * Dmax(depth of the cell)
       let mut slack: f64 = -1.0;
       for c in cells.iter() {
@@ -223,6 +235,32 @@ pub fn record_cone(rng: &mut Rng, count: u64, out: &mut Out) {
       (lo, la, (cell_size(depth) * rng.range(0.02, 3.0)).min(3.0), depth, if rng.below(4) == 0 { (1 + rng.below(2) as u8).min(29 - depth) } else { 0 }, "cellcentre")
     } else { (lon, lat, r, depth, dd, class) };
     if let Some(ev) = cone_event(rng, depth, dd, lon, lat, r, if class == "uniform" { rclass } else { class }) { out.emit(ev); }
+  }
+}
+
+/// large cones at moderate depths (hundreds to thousands of cells): the full flags far from the centre, packing of long results
+pub fn record_cone_large(rng: &mut Rng, count: u64, out: &mut Out) {
+  let mut guard = 0;
+  while out.n < count && guard < 50 * count {
+    guard += 1;
+    let tl = 0.7297276562269663;
+    let (lon, lat) = match rng.below(5) {
+      // on / around the meridian through the middle of a polar cap base cell, at high latitude
+      0 | 1 => ((PI / 4.0 + HALF_PI * rng.below(4) as f64 + rng.range(-0.3, 0.3) * rng.f64()).rem_euclid(TWO_PI), (if rng.bool() { 1.0 } else { -1.0 }) * rng.range(0.75, 1.55)),
+      // around the north corner of the highest-numbered base cell a cone may overlap: pole, (270 deg, transition), (315 deg, 0)
+      2 => { let (l, b) = *rng.pick(&[(0.3, HALF_PI), (1.5 * PI, tl), (1.75 * PI, 0.0)]); let (l2, b2) = offset_point(l, b.min(HALF_PI - 1e-9), rng.range(0.0, 0.2), rng.range(0.0, TWO_PI)); (l2.rem_euclid(TWO_PI), b2) }
+      _ => (rng.range(0.0, TWO_PI), rng.range(-1.0, 1.0f64).asin()),
+    };
+    let capdiag = lat.abs() > 1.0 && rng.below(4) != 0;
+    let r = if capdiag { rng.range(0.1, 0.6) } else { 10f64.powf(rng.range(-1.3, 0.2)) };
+    let mut depth = if capdiag { 6 + rng.below(2) as u8 } else { 3 + rng.below(5) as u8 };
+    // keep the result below the size given to TLC
+    loop {
+      match cone_event(rng, depth, 0, lon, lat, r, "large") {
+        Some(ev) => { out.emit(ev); break; }
+        None => { if depth <= 2 { break; } depth -= 1; }
+      }
+    }
   }
 }
 
